@@ -32,6 +32,7 @@ import impl
 import lib
 import iotie
 import serdesjsontie
+import literaltie
 import serdesasttie
 from lib import coq_list
 
@@ -39,6 +40,7 @@ COQ_TARGETS = ["theories/Proofs/SerdesLemmas.vo", "theories/Model/SerdesEq.vo"]
 COQ_TARGETS = COQ_TARGETS + [t for t in iotie.COQ_TARGETS if t not in COQ_TARGETS]
 COQ_TARGETS = COQ_TARGETS + [t for t in serdesjsontie.COQ_TARGETS if t not in COQ_TARGETS]
 COQ_TARGETS = COQ_TARGETS + [t for t in serdesasttie.COQ_TARGETS_LOAD if t not in COQ_TARGETS]
+COQ_TARGETS = COQ_TARGETS + [t for t in literaltie.COQ_TARGETS if t not in COQ_TARGETS]
 THEOREMS = ["C14_full_holds", "C14_full_pinned_refuted", "C14_decode_carriers", "C14_load_carriers", "C14_carriers", "C14_json_text", "C14_literal_text",
             "C14_load_json", "C14_load_plain_text", "C14_load_nontext",
             "C14_refuted_bytearray", "C14_literal_carriers", "C14_refuted_resource"]
@@ -747,6 +749,7 @@ def correspond(run: lib.Run):
     lib.run_tie(run, serdesasttie, parts=("load",))
     run.tie_failures = list(getattr(run, "tie_failures", [])) + list(serdesasttie.search(run, parts=("load",)))
     lib.run_tie(run, serdesjsontie)      # the JSON decoder of the serdes model IS the proved reader of Model/Json.v (Props/C14Json.v)      # C14 load theorems hold of Core.load (Props/IoBridge.v); the core-io stream runs under C18
+    lib.run_tie(run, literaltie)      # ast.literal_eval / repr as an executable reader / writer (Props/C14Literal.v): literal_read (py_repr w) = Some w; JSON-first agrees on repr text
 
 
 # ----------------------------------------------------------------------------------
